@@ -20,6 +20,7 @@ type TunConn struct {
 	Out       *wsraw.LegacyOut
 	Exited    bool
 	Broken    bool // the server stream could not be framed any more: the client hung up
+	In2       *wsraw.LegacyIn // a second RDG_IN_DATA connection the gateway accepted for the same identifier (DupIn)
 	exitIdx   int
 	OpenMark  int
 }
@@ -37,6 +38,9 @@ type OpenOpts struct {
 	OutElsewhere bool
 	OutLocalIP   string
 	OutXFF       string
+	// legacy only: a second RDG_IN_DATA request under the same identifier is sent before the first one has sent its
+	// first bytes (it is kept in TunConn.In2 when the gateway accepted it)
+	DupIn bool
 }
 
 func (i *Inst) dialOpts(o OpenOpts, cid string) wsraw.DialOpts {
@@ -113,6 +117,13 @@ func (i *Inst) Open(o OpenOpts) (*TunConn, *wsraw.HTTPReply, error) {
 			return nil, rep2, err
 		}
 		t.In = in
+		if o.DupIn {
+			d2 := d
+			d2.Timeout = 1500 * time.Millisecond
+			if in2, _, e2 := wsraw.DialLegacyIn(d2); e2 == nil && in2 != nil {
+				t.In2 = in2
+			}
+		}
 		// the gateway discards the first bytes it reads on the IN channel
 		pad := make([]byte, 100)
 		if err := in.WriteChunk(pad); err != nil {
@@ -134,6 +145,9 @@ func (t *TunConn) Close() {
 	}
 	if t.In != nil {
 		t.In.Close()
+	}
+	if t.In2 != nil {
+		t.In2.Close()
 	}
 	if t.Out != nil {
 		t.Out.Close()
